@@ -32,6 +32,28 @@ A condition that raises ZeroDivisionError makes the whole penalty +inf (and is
 stored as +inf).  error(x) is the violation magnitude: |c| for equality types,
 max(0, c) for inequality types, +inf on ZeroDivisionError; for a stack it is the
 Euclidean norm of the per-level magnitudes.
+
+Operations may be addressed to any level j of a stack: they reach the levels j..
+(the addressed penalty and everything it decorates) and nothing above.  Each level
+counts its own iterations: a bare iter() advances every reached level by one from
+wherever it stands, iter(i) sets every reached level to i, clear() resets them.
+store(x) with no index: the statement is silent about where an inner Lagrange level
+files a sample that reaches it through an outer Lagrange level standing at another
+iteration (the code hands the outer level's index down).  The model does the same and
+counts the event in Stack.store_handed_down so that the check can stop judging there.
+
+The penalty combinators of mystic.coupler are penalties of their own (docstrings of
+and_/or_/not_: "ptype -- penalty function type [default: linear_equality]; k --
+penalty multiplier [default: 1]; h -- iterative multiplier [default: 5]"):
+
+    and_(p1..pm)   ptype-expression of  c = p1(x) + ... + pm(x)
+    or_(p1..pm)    ptype-expression of  c = min(p1(x), ..., pm(x))
+    not_(p)        p's own type (unless ptype is given) on the inverted condition:
+                   -f(x) for inequality types, (not f(x)) for equality types
+
+with an iteration state of their own: operating on a combination leaves its members'
+(n, store) alone and operating on a member leaves the combination's alone; the
+members' current values enter the combination's condition.
 """
 import math
 
@@ -64,6 +86,7 @@ class Level(object):
         self.y = {}          # index -> stored condition value
         self.ylen = 0        # length of the stored list (gaps read as 0.0)
 
+    combo = False        # True for and_/or_ levels (ComboLevel)
     equality = property(lambda self: self.ptype in EQUALITY)
     keeps_store = property(lambda self: self.ptype in LAGRANGE)
 
@@ -97,13 +120,15 @@ class Level(object):
         self.ylen = 0
 
     def store(self, x, i=None):
+        """-> the index handed on to the decorated penalty"""
         if not self.keeps_store:
-            return
+            return i
         c = self.c(x)
         if i is None:
             i = self.n
         self.y[i] = INF if c is ZDE else c
         self.ylen = max(self.ylen, i + 1)
+        return i
 
     def stored(self, i=None):
         if i is None:
@@ -134,6 +159,14 @@ class Level(object):
         c = self.c(x)
         if c is ZDE:
             return ZDE, 0.0
+        return self.formula(c)
+
+    def err_scale(self, x):
+        """magnitude of the terms the violation is computed from (tolerance of the error comparison)"""
+        return self.violation(x)
+
+    def formula(self, c):
+        """the documented expression at condition value c -> (value, magnitude scale)"""
         t = self.ptype
         pk = self.k * self.h ** self.n
         if t == 'quadratic_equality':
@@ -173,28 +206,37 @@ class Stack(object):
     def __init__(self, levels, f):
         self.levels = list(levels)
         self.f = f
+        self.store_handed_down = 0
 
-    def iter(self, i=None):
-        for L in self.levels:
+    def iter(self, i=None, j=0):
+        for L in self.levels[j:]:
             L.iter(i)
 
-    def clear(self):
-        for L in self.levels:
+    def clear(self, j=0):
+        for L in self.levels[j:]:
             L.clear()
 
-    def store(self, x, i=None):
-        for L in self.levels:
-            L.store(x, i)
+    def store(self, x, i=None, j=0):
+        """every reached level records the condition value; the index is handed down level by level (a Lagrange
+        level resolves a missing index to its own iteration, the other types pass it on unchanged) - the code's
+        behaviour, about which the statement says nothing; it equals "each level at its own iteration" whenever
+        the Lagrange levels of the stack are in step"""
+        given = i
+        for L in self.levels[j:]:
+            if given is None and i is not None and L.keeps_store and i != L.n:
+                self.store_handed_down += 1     # a sample filed under another level's iteration (counted, not judged)
+            i = L.store(x, i)
 
-    def apply(self, op, points):
-        """op is a JSON-able list: ['iter'], ['iter', 2], ['clear'], ['store', 'xa'], ['store', 'xb', 1]"""
+    def apply(self, op, points, j=0):
+        """op is a JSON-able list: ['iter'], ['iter', 2], ['clear'], ['store', 'xa'], ['store', 'xb', 1];
+        j: the level the operation is issued on (it reaches levels j..)"""
         name = op[0]
         if name == 'iter':
-            self.iter(*op[1:])
+            self.iter(*op[1:], j=j)
         elif name == 'clear':
-            self.clear()
+            self.clear(j=j)
         elif name == 'store':
-            self.store(points[op[1]], *op[2:])
+            self.store(points[op[1]], *op[2:], j=j)
         else:
             raise ValueError(op)
 
@@ -238,8 +280,87 @@ class Stack(object):
         out.reverse()
         return out
 
+    def error_scales_all(self, x):
+        ss, out = 0.0, []
+        for L in reversed(self.levels):
+            ss += L.err_scale(x) ** 2
+            out.append(math.sqrt(ss))
+        out.reverse()
+        return out
+
     def error(self, x, j=0):
         ss = 0.0
         for L in self.levels[j:]:
             ss += L.violation(x) ** 2
         return math.sqrt(ss)
+
+
+# ---------------------------------------------------------------- combinators (mystic.coupler and_/or_/not_)
+COMBO_DEFAULT_PTYPE = 'linear_equality'
+COMBO_DEFAULT_K = 1
+
+
+def combo_kh(ptype, settings):
+    """k, h of a combinator from its keyword settings: k defaults to 1 (k=None: the type's own default), h to 5"""
+    if 'k' not in settings:
+        k = COMBO_DEFAULT_K
+    elif settings['k'] is None:
+        k = DEFAULT_K.get(ptype, 100)
+    else:
+        k = settings['k']
+    return k, settings.get('h', DEFAULT_H)
+
+
+class ComboLevel(Level):
+    """and_ / or_ of member penalties (each a Stack): a penalty level of type `ptype` whose condition is the sum /
+    the minimum of the members' current values, with (n, store) of its own"""
+    combo = True
+
+    def __init__(self, kind, members, settings=None):
+        assert kind in ('and_', 'or_'), kind
+        settings = dict(settings or {})
+        ptype = settings.get('ptype') or COMBO_DEFAULT_PTYPE
+        k, h = combo_kh(ptype, settings)
+        Level.__init__(self, ptype, None, k, h)
+        self.kind = kind
+        self.members = list(members)
+
+    def _cs(self, x):
+        """(condition value, magnitude of the terms it is made of)"""
+        vs = [m.value(x) for m in self.members]
+        if self.kind == 'and_':
+            c = 0
+            for v, s in vs:
+                c = c + v
+        else:
+            c = min(v for v, s in vs)
+        return c, sum(s for v, s in vs)
+
+    def c(self, x):
+        return self._cs(x)[0]
+
+    def term(self, x):
+        c, S = self._cs(x)
+        v, s = self.formula(c)
+        if S == INF or S != S:
+            return v, max(s, S)
+        # the members' values carry a relative error of their own scale S: propagate it through the expression
+        return v, max(s, self.formula(S)[1])
+
+    def err_scale(self, x):
+        c, S = self._cs(x)
+        return max(abs(c), S)
+
+
+def not_level(member, settings=None):
+    """not_(p): a level of p's own type (or settings['ptype']) on the inverted condition of p, k default 1, h default 5;
+    it does not look at p's iteration state at all"""
+    settings = dict(settings or {})
+    ptype = settings.get('ptype') or member.ptype
+    k, h = combo_kh(ptype, settings)
+    cond = member.cond
+    if ptype in INEQUALITY:
+        inv = lambda x: 0 - cond(x)
+    else:
+        inv = lambda x: float(not cond(x))
+    return Level(ptype, inv, k, h)
